@@ -65,7 +65,7 @@ PROPS["C07"] = {
 }
 PROPS["C11"] = {
     "level": "exploration",
-    "rule": "rapidcheck-generated write histories on every container with a rewritable header (all but RAW; CAF/ALAC excluded by the statement): partition into write calls with explicit SFC_UPDATE_HEADER_NOW at random points or SFC_SET_UPDATE_HEADER_AUTO; crash point = byte image of the virtual file right after each update / each write in auto mode, parsed by an independent handle; "
+    "rule": "rapidcheck-generated write histories on every container with a rewritable header (all but RAW; CAF/ALAC excluded by the statement): partition into write calls with explicit SFC_UPDATE_HEADER_NOW at random points or SFC_SET_UPDATE_HEADER_AUTO; optionally a seek back, an overwrite and an update in the middle of the file followed by a write without a seek; optionally an RDWR handle with a read between the last write and the update; optionally the audio through sf_write_raw; crash point = byte image of the virtual file right after each update / each write in auto mode, parsed by an independent handle; "
             "non-trivial = a second or later snapshot taken at a position that is not a multiple of the block length (any second snapshot for sample-granular encodings); distinct = hash of (format, channels, N, type, partition, mode). coverage.snapshots_checked counts the crash points examined",
     "assumptions": BASE_ASSUME + ["a crash is modelled as a copy of the bytes the virtual I/O layer had accepted when the update returned (no partial write of the update itself)"],
     "stages": [
@@ -92,7 +92,7 @@ PROPS["C17"] = {
     "technique": "exhaustive enumeration of the command x handle x datasize x data grid under ASan with exact-size heap blocks, plus a state-digest oracle for queries",
     "exhaustive": True,
     "rule": "complete enumeration: every SFC_* id of sndfile.h + 4 undefined ids x handle {NULL, read, write, rdwr} on {WAV PCM16, WAV float, WAVEX, RF64, AIFF, CAF, RAW} with and without stored metadata x datasize {0..natural size+8 (every value; for SF_CUES every size within -2..+5 of each whole-cue boundary), 4096, 16385, 65536} x data {NULL, heap block of exactly datasize bytes filled with zeros / 0xFF / random / plausible length fields / lying length fields}; "
-            "each group runs in a forked child that announces the cell before executing it; non-trivial = data != NULL and datasize != the natural struct size (cells are distinct by construction, counted); query commands are additionally checked with a digest of positions, SF_INFO, norm/clip settings, all strings, bext, cart, cues, instrument, channel map and the backing bytes",
+            "NULL handle both in a fresh state and right after a failed open (process-wide log and error populated); each group runs in a forked child that announces the cell before executing it; non-trivial = data != NULL and datasize != the natural struct size (cells are distinct by construction, counted); query commands are additionally checked with a digest of positions, SF_INFO, norm/clip settings, all strings, bext, cart, cues, instrument, channel map and the backing bytes",
     "assumptions": BASE_ASSUME + ["'natural size' per command is the harness' table (sizeof of the documented struct); a zero-size request passes a pointer one past a heap block so that any access is an ASan report",
                                   "state-changing commands are followed by a 4-frame write and sf_close inside the same cell so damage they cause is attributed to that cell"],
     "stages": [
@@ -104,7 +104,7 @@ PROPS["C20"] = {
     "level": "exploration",
     "engine": "enumeration + rapidcheck",
     "technique": "exhaustive enumeration of code spaces against independent reference implementations (G.711, IEEE-754 bit patterns, byte swaps) and property-based testing of the ADPCM block decoders against reference decoders",
-    "rule": "enumeration: all 256 G.711 codes through the 4 read types and all 65536 16-bit inputs through the 4 write types for mu-law and A-law (decode table == ITU-T G.711 formulas, encode = interval quantiser, enc(dec(c)) == c); every normal float32 exponent (254) x both signs x {69 mantissa edge patterns + 32K stratified mantissas (quick) | all 2^23 mantissas (thorough)} x both byte orders x read and write through the portable serialisers (SFC_TEST_IEEE_FLOAT_REPLACE); every normal double exponent (2046) x both signs x 4096 (quick) / 2^19 (thorough) mantissas likewise; ENDSWAP_16 for all 2^16 inputs, 32/64-bit swaps and psf_get/put helpers on bit walks + 200K random words; "
+    "rule": "enumeration: all 256 G.711 codes through the 4 read types and all 65536 16-bit inputs through the 4 write types for mu-law and A-law (decode table == ITU-T G.711 formulas, encode = interval quantiser, enc(dec(c)) == c, and the int image x << 16 of every 16-bit value gets exactly the code the short gets); every normal float32 exponent (254) x both signs x {69 mantissa edge patterns + 32K stratified mantissas (quick) | all 2^23 mantissas (thorough)} x both byte orders x read and write through the portable serialisers (SFC_TEST_IEEE_FLOAT_REPLACE); every normal double exponent (2046) x both signs x 4096 (quick) / 2^19 (thorough) mantissas likewise; ENDSWAP_16 for all 2^16 inputs, 32/64-bit swaps and psf_get/put helpers on bit walks + 200K random words; "
             "rapidcheck: WAV/W64 IMA, WAV/W64 MS ADPCM and AIFF ima4 files whose block bytes are generated (random, all-00/FF/77/88 nibbles, adversarial headers: extreme predictors, step index 0..88 and illegal, MS predictor 0..6 and illegal) for the writer's block sizes 256/512/1024/2048 (34 for ima4), 1-2 channels, decoded through the API and compared sample-exact with independent reference decoders; every enumerated pattern counts as distinct and non-trivial (counted), ADPCM cases are distinct by hash of the case",
     "assumptions": BASE_ASSUME + ["G.711 encode oracle: the sign-magnitude input lies in the quantisation interval of the level it is mapped to, allowing for the 2 (mu-law) / 3 (A-law) low bits libsndfile drops when reducing 16-bit input to 14/13 bits - the statement's 'nearest level' is not what G.711 itself does at segment boundaries (DESIGN Corrections)",
                                   "MS ADPCM reference uses an arithmetic shift for the /256 of the predictor (the SoX/libsndfile family); headers outside the format definition (step index > 88, MS predictor >= 7, negative or overflowing delta) only get the memory-safety check",
@@ -146,7 +146,7 @@ PROPS["C08"] = {
 PROPS["C09"] = {
     "level": "exploration",
     "rule": "rapidcheck-generated histories (1-25 calls) on handles in mode {read, write, rdwr} over 12 representative formats (one per wrapper family incl. block codecs and non-seekable ones): valid reads/writes/seeks/commands/set_string mixed with each invalid class - wrong-mode read/write, item count not divisible by channels, negative count, unknown whence, whence with the wrong mode bits, out-of-range and negative seek, unknown command id, NULL data, set_string on a read handle / NULL / unknown type, set_chunk NULL / on a format without chunks, and 10 failing sf_open variants (bad mode, NULL SF_INFO, zero major/minor, unknown format, missing file, empty file, directory, VIO table without read, garbage content); "
-            "plus the whole sf_error_number table 0..SFE_MAX_ERROR; non-trivial = a history with at least one invalid call followed by a valid one; distinct = hash of (format, mode, ops)",
+            "plus the whole sf_error_number table 0..SFE_MAX_ERROR; raw reads / writes whose byte count is not a whole number of frames; a seek beyond the end of a write / RDWR handle of a block codec (a refusal must leave the digest, file bytes included, unchanged); over-long path names; every failing open preceded by a successful one so that the global error is really set by the failure; 22 representative formats (second group added for the remaining seek / codec wrappers); non-trivial = a history with at least one invalid call followed by a valid one; distinct = hash of (format, mode, ops)",
     "assumptions": BASE_ASSUME + ["where an error is 'recorded' follows each call's documentation: sf_error(handle) for read/write/seek, the return value for sf_set_string / sf_set_chunk / sf_command(GET_CURRENT_SF_INFO), sf_error(NULL) for sf_open",
                                   "zero-length reads/writes are not generated (they return before the error is cleared; the statement does not classify them)",
                                   "LeakSanitizer's recoverable check runs after every history; its first report ends leak checking in that worker (a leaked block would be reported again for every later case), so leak failures are reported unshrunk"],
@@ -168,7 +168,7 @@ PROPS["C18"] = {
 PROPS["C13"] = {
     "level": "exploration",
     "rule": "rapidcheck-generated: container {WAV, WAVEX, RF64, AIFF, CAF} x encoding x channels x 0..200 chunks (counts biased to 19-22, 30-33, 46-49 = the table growth steps) x ids {distinct 4-char, few ids with duplicates, 1-3 chars, mixed} x payload lengths {0..5, odd and 4k+-1, up to 2 KiB, occasional 20-48 KiB} x interleaved string/bext sets x 0..1000 frames x a late sf_set_chunk after audio x optional reserved id x reading part of the audio before the chunk queries; "
-            "model = ordered list of accepted chunks; after re-open: full iteration visits them exactly once in order (library chunks identified by a twin file without custom chunks), by-id iteration visits exactly the chunks with that id, size within +3 of the payload length, payload equal and zero padded, short-buffer fetches stay inside an exact-size ASan block, audio and strings equal the twin; non-trivial = >= 21 chunks or duplicate ids or an odd payload; distinct = hash of the case",
+            "the audio through sf_writef_short or, for sample-granular encodings, through sf_write_raw alone; model = ordered list of accepted chunks; after re-open: full iteration visits them exactly once in order (library chunks identified by a twin file without custom chunks), by-id iteration visits exactly the chunks with that id, size within +3 of the payload length, payload equal and zero padded, short-buffer fetches stay inside an exact-size ASan block, audio and strings equal the twin; non-trivial = >= 21 chunks or duplicate ids or an odd payload; distinct = hash of the case",
     "assumptions": BASE_ASSUME + ["chunk sources and destinations are exact-size heap blocks; the invariant hook runs after every sf_set_chunk",
                                   "three listed findings partition off their own classes by signature (ids shorter than 4 chars, reserved ids, totals above ~48 KiB); everything else is asserted"],
     "stages": [
@@ -179,7 +179,7 @@ PROPS["C13"] = {
 PROPS["C12"] = {
     "level": "exploration",
     "rule": "rapidcheck-generated: container {WAV, WAVEX, RF64, AIFF, CAF} x encoding x channels x subset of {strings, bext, cart, cues, instrument, channel map} the static support table allows (plus, one case in eight, the items it does not allow) x random order of the set calls x values: strings of length classes {1-4, odd, 63/64/127/128/255/256, <= 60, 200-2000, even} of printable ASCII + 2-byte UTF-8, bext/cart with every fixed field filled (to its width or partially), coding history / tag text 0..255 bytes with CR, LF, CRLF mixes, 0..100 cue points with names, 0..16 loops of every mode, a legal channel layout x >= 1000 frames x late variant (one item set again after audio written through sf_writef_short or through sf_write_raw); "
-            "oracle: get calls after re-open return the model value (identity except: software suffix, CRLF-normalised history + library line, the fields the container's chunk layout holds); audio and all items not set equal a twin file; non-trivial = >= 2 kinds in one file or a boundary-length string; distinct = hash of the case",
+            "every item optionally set once before with other values (the later set must replace it completely); bext / cart optionally passed in an exact-size heap block that ends with the text; optionally exactly one string type (including one the container has no field for); cue names up to 255 characters; oracle: get calls after re-open return the model value (identity except: software suffix, CRLF-normalised history + library line, the fields the container's chunk layout holds); audio and all items not set equal a twin file; non-trivial = >= 2 kinds in one file or a boundary-length string; distinct = hash of the case",
     "assumptions": BASE_ASSUME + ["which (container, item) pairs must round-trip is a static table in the harness transcribed from the chunk definitions (not learned from the library)",
                                   "WAV smpl cannot hold a negative detune (unsigned pitch fraction): detune is asserted for values >= 0 only; cue names are asserted for AIFF only (WAV never writes them)",
                                   "software strings are kept <= 64 bytes (the 128-byte staging buffer of psf_store_string is not under test)"],
@@ -191,7 +191,7 @@ PROPS["C12"] = {
 PROPS["C16"] = {
     "level": "exploration",
     "rule": "rapidcheck-generated cases of two kinds on every catalogue entry: (hist) open in mode {read, write, rdwr} by route {virtual I/O, path, descriptor with close_desc 0/1} + 0..20 calls drawn from every allocating command (strings, bext, cart, cues, instrument, chunks, PEAK on/off, channel map, dither, header-update, scale/clip), typed writes and reads (wrong-mode ones fail), seeks, invalid commands, then close; (malformed) a valid file with metadata, mutated by truncation at any relative offset / short header prefix / byte flips / 0x00-0xFF-ed size fields / header garbage, opened for read by each route and exercised; (opens failing under injected I/O faults are enumerated by C15); "
-            "after every case: LeakSanitizer's recoverable leak check is clean, the set of open descriptors in /proc/self/fd is unchanged, the private TMPDIR is empty, a descriptor given to sf_open_fd is closed iff close_desc, sf_close returned 0 on the non-fault routes; non-trivial = an allocating command was used or an open failed; distinct = hash of the case",
+            "malformed also: exactly one field of one of the first eight chunks damaged, seven extra truncation points in the header area, files with cue points but no instrument, and SD2 pairs written by path whose '._name' resource fork is truncated / flipped / has 16- and 32-bit fields set to boundary values (one case in 25); after every case: LeakSanitizer's recoverable leak check is clean, the set of open descriptors in /proc/self/fd is unchanged, the private TMPDIR is empty, a descriptor given to sf_open_fd is closed iff close_desc, sf_close returned 0 on the non-fault routes; non-trivial = an allocating command was used or an open failed; distinct = hash of the case",
     "assumptions": BASE_ASSUME + ["LeakSanitizer (in-process recoverable check) is the leak oracle; memory still reachable from library statics would not be reported"],
     "stages": [
         {"bin": "c16", "quick": {"cases": 2500, "workers": 16, "budget": 200}, "thorough": {"cases": 20000, "workers": 16, "budget": 1500}},
@@ -202,7 +202,7 @@ PROPS["C15"] = {
     "level": "fault_enumeration",
     "engine": "enumeration",
     "technique": "systematic fault injection: enumeration of every virtual-I/O callback index x fault kind x persistence for fixed workloads, with containment invariants as the oracle",
-    "rule": "42 representative formats (one per container and per codec family) x workloads {write 3 blocks + header update + close, open-read-seek-read-query-close on a file with metadata chunks, rdwr read/append/reread where supported}: the fault-free run counts K callbacks; cells = fault point i in 1..K x kind {zero-length transfer, short transfer, seek failure, length answer +4096 / -17 / huge} x {single-shot, persistent from i}; both tiers enumerate all cells (the whole grid costs a few seconds); each (format, workload) group runs in a forked child that announces a cell before executing it, a hang ends the child through the I/O work budget (300000 callbacks) and is attributed to that cell; "
+    "rule": "42 representative formats (one per container and per codec family) x workloads {write 3 blocks + header update + close, open-read-seek-read-query-close on a file with metadata chunks, rdwr read/append/reread where supported}: (sample-granular formats also sf_write_raw / sf_read_raw, position judged with the geometry the handle reports) the fault-free run counts K callbacks; cells = fault point i in 1..K x kind {zero-length transfer, short transfer, seek failure, length answer +4096 / -17 / huge} x {single-shot, persistent from i}; both tiers enumerate all cells (the whole grid costs a few seconds); each (format, workload) group runs in a forked child that announces a cell before executing it, a hang ends the child through the I/O work budget (300000 callbacks) and is attributed to that cell; "
             "oracle per cell: every call returns, counts within [0, requested], the internal position moved by exactly the returned count, seek returns target or -1, invariants hook clean, failing open returns NULL with an error, descriptor set unchanged, audio bytes accepted before the fault equal either the snapshot at the fault or the fault-free file, LeakSanitizer clean (per group, per cell on re-run when a group leaks); non-trivial = the fault was actually consumed (counted; cells are distinct by construction)",
     "assumptions": BASE_ASSUME + ["faults stay inside the SF_VIRTUAL_IO contract (returns in [0, requested], seek -1); OS-level errors on descriptors (ENOSPC, EBADF) are not injected in this version",
                                   "'accepted data not corrupted' is checked for the write workload on the audio region behind the header size observed after a fault-free open"],
@@ -215,7 +215,7 @@ PROPS["C15"] = {
 PROPS["C14"] = {
     "level": "exploration",
     "rule": "rapidcheck-generated: kind {read, write} x catalogue entry x channels x N in {0,1,5,6,100,777,3000} x sample seed x mutation {valid, truncated at a generated cut, one byte altered, header bytes overwritten} x leading junk {1..1001} x trailing junk {0..500}; "
-            "read: the same byte string opened through virtual I/O, sf_open, sf_open_fd close_desc 0 and 1, a descriptor positioned at offset k of a file with random leading and trailing bytes (WAV/AIFF/AU, valid inputs) and a non-seekable pipe (WAV/AIFF/AU sample-granular encodings, valid inputs); oracle: same NULL-vs-handle outcome and sf_error number (path/fd/vio), same SF_INFO (pipe: frames and seekable exempt), same first 2000 frames via sf_readf_int, same strings, sf_close 0; "
+            "read: the same byte string opened through virtual I/O, sf_open, sf_open_fd close_desc 0 and 1, a descriptor positioned at offset k of a file with random leading and trailing bytes (WAV/AIFF/AU, valid inputs) and a non-seekable pipe (WAV/AIFF/AU sample-granular encodings, valid inputs); optional extras on valid inputs: a 17-70 KB unknown chunk spliced in before the audio (WAV / AIFF), an AU annotation of 4..70000 bytes, an ID3v2 tag in front of a WAV, a second pipe fed slowly by a forked writer while a 400 us timer signal without SA_RESTART interrupts the reader, the descriptor routes repeated with standard input closed so that the file gets descriptor 0; oracle: same NULL-vs-handle outcome and sf_error number (path/fd/vio), same SF_INFO (pipe: frames and seekable exempt), same first 2000 frames via sf_readf_int, same strings, sf_close 0; "
             "write: the same frames written through virtual I/O, sf_open, sf_open_fd 0/1 and a descriptor positioned at offset k<=L of an existing L-byte container file; oracle: bytes identical (SVX NAME chunk and MPC2K name field masked), the L existing bytes intact and the sound file appended after them; "
             "both: fcntl on the handed-in descriptor after sf_close says closed iff close_desc, and the set of open descriptors of the process is unchanged; non-trivial = N >= 1 and at least three routes compared; distinct = hash of the case",
     "assumptions": BASE_ASSUME + ["SD2 is excluded (path-only container with a resource fork)",
@@ -228,7 +228,7 @@ PROPS["C14"] = {
 
 PROPS["C19"] = {
     "level": "exploration",
-    "rule": "rapidcheck-generated: 2..8 scripts, each (catalogue entry, channels, mode {read, write, failing open}, op seed, 1..10 ops); one draw in three puts every script on the same codec; "
+    "rule": "rapidcheck-generated: 2..8 scripts, each (catalogue entry, channels, mode {read, write, failing open}, op seed, 1..10 ops); one draw in three puts every script on the same codec (drawn among the encodings with private per-stream state); one script in three works on a real file with descriptors of its own (SD2 included), the others on virtual I/O; ALAC fixtures span several packets; "
             "read ops: typed sf_readf of 0..2000 frames, sf_seek with every whence incl. out-of-range targets, sf_get_string, SFC_CALC_SIGNAL_MAX, norm/scale/clipping settings; write ops: typed sf_writef of 0..3000 frames (all sample styles, arbitrary finite float bit patterns for float codecs), sf_set_string, SFC_UPDATE_HEADER_NOW, SFC_TEST_IEEE_FLOAT_REPLACE on/off, settings; "
             "merge of the scripts' steps {random, round robin, one after the other (= earlier library use), bursts}, and every merge (<= 300) of two short scripts; "
             "oracle: per-script transcript (return value, digest of returned data, sf_error(handle) after every call, sf_error(NULL)/sf_strerror(NULL) right after the script's own open, close status) and the final bytes of its backing store equal the transcript of the same script run alone; fixtures, every solo run and every interleaved run happen in a forked child of their own, the parent never opens a file; "
@@ -332,7 +332,7 @@ PROPS["C03"] = {
     "level": "exploration",
     "engine": "enumeration + libFuzzer",
     "technique": "fuzzing with a semantic oracle inside the target: systematic structure-aware mutation sweep of a generated seed corpus (fork-isolated, every cell attributed) plus a coverage-guided libFuzzer campaign on the same target function",
-    "rule": "stage 0 (enumerated): every seed file (catalogue entry x {1,2} channels, plus metadata-rich variants of WAV/WAVEX/RF64/AIFF/CAF/W64 carrying strings, bext, cart, cue, smpl/INST, chan, PEAK and custom chunks) x mutation {none, truncate, truncate + flipped header byte, zero/0xFF a 4-byte field, flip a byte, set a field to 24 boundary constants in both byte orders, swap adjacent chunks, inflate a chunk size with and without truncation} x position {every byte of the first 96 (2600 for rich seeds), every chunk boundary +-1, 20 evenly spaced, the tail} with a derived 4-8 op script and route {virtual I/O 70 %, memfd descriptor, pipe}; "
+    "rule": "stage 0 (enumerated): every seed file (catalogue entry x {1,2} channels, plus metadata-rich variants of WAV/WAVEX/RF64/AIFF/CAF/W64 carrying strings, bext, cart, cue, smpl/INST, chan, PEAK and custom chunks, an AIFF variant with MARK chunk, and hand-built variants with block / chunk types the library never writes: VOC ASCII / marker / repeat / silence blocks, WAV acid / PAD / LIST adtl / exif / DISP / levl ..., AIFF COMT / APPL / INST / basc / MIDI, SVX text / CHAN / envelope chunks, CAF free / uuid / mark / strg ...) x mutation {none, truncate, truncate + flipped header byte, zero/0xFF a 4-byte field, flip a byte, set a field to 24 boundary constants in both byte orders, swap adjacent chunks, inflate a chunk size with and without truncation} x position {every byte of the first 96 (2600 for rich seeds), every chunk boundary +-1, 20 evenly spaced, the tail} with a derived 4-8 op script and route {virtual I/O 70 %, memfd descriptor, pipe}; "
             "stage 1 (libFuzzer, coverage-guided, fork mode): input = file bytes || <= 24 ops || control (route, RAW SF_INFO with 16 encodings), seeded corpus + dictionary of all MAKE_MARKER ids, and an empty-corpus campaign in thorough; "
             "oracle inside the target: NULL => sf_error(NULL) != 0 and a message; handle => 1 <= channels <= 1024, samplerate >= 1, frames >= 0, sections >= 1, container and encoding among the public constants; every read count <= request; ASan + bounds on exact-size caller buffers for all four read types, sf_read_raw, strings, every GET/CALC command, SF_CUES_VAR(1,2,3,100), chunk iteration with exact and short buffers; invariant hook after every call; per-call I/O budget 2000000 + 100 callbacks per input byte (virtual I/O), 10 s alarm per cell (a candidate only: reported after three replays under a 45 s limit) / libFuzzer -timeout=25 for CPU-bound loops; LSan per group; "
             "non-trivial = the open succeeded; distinct = one per enumerated cell (stage 0) / corpus unit (stage 1)",
